@@ -81,20 +81,164 @@ class Runner:
         return ct, nt, info
 
 
-def sweep(runner, cases, batch=120, pmap=None):
-    """runs every case; returns list of (case, compile-time text | None, native text | None, info)"""
-    out = []
+def needs_escape(c):
+    """a string operand whose source spelling needs a backslash escape (finding c03:string-escapes: the evaluator keeps the escape)"""
+    def has(v):
+        if isinstance(v, (bytes, bytearray)):
+            return any(ch in v for ch in (b'\\', b'"', b'\n', b'\t'))
+        if isinstance(v, (list, tuple)):
+            return any(has(x) for x in v)
+        return False
+    return has(c.info.get('ops') or [])
+
+
+def sweep(runner, cases, batch=400, pmap=None):
+    """runs every case; returns list of (case, compile-time text | None, native text | None, info).  A program that does not give
+    both sides for all its cases is split: by builtin first, then (when the first case of a builtin alone fails, too) the whole
+    builtin is reported unavailable once; otherwise by halves."""
+    def ok(ct, nt):
+        return ct is not None and nt is not None and all(x is not None for x in ct)
 
     def solve(group):
         ct, nt, info = runner.run(group)
-        if ct is not None and nt is not None and all(x is not None for x in ct):
+        if ok(ct, nt):
             return [(c, a, b_, info) for c, a, b_ in zip(group, ct, nt)]
         if len(group) == 1:
             return [(group[0], ct[0] if ct else None, nt[0] if nt else None, info)]
-        h = len(group) // 2
-        return solve(group[:h]) + solve(group[h:])
+        labels = []
+        for c in group:
+            if c.label not in labels:
+                labels.append(c.label)
+        if len(labels) > 1:
+            h = len(labels) // 2
+            left = [c for c in group if c.label in labels[:h]]
+            right = [c for c in group if c.label in labels[h:]]
+            return solve(left) + solve(right)
+        first = solve(group[:1])
+        (c0, a0, n0, i0) = first[0]
+        if a0 is None or n0 is None:
+            # the builtin cannot be observed on one side at all (first case alone): one record for all its cases
+            return first + [(c, False if a0 is None else b'', False if n0 is None else b'', dict(i0, whole_builtin=True)) for c in group[1:]]
+        rest = group[1:]
+        h = len(rest) // 2
+        return first + (solve(rest[:h]) if rest[:h] else []) + (solve(rest[h:]) if rest[h:] else [])
 
     groups = [cases[i:i + batch] for i in range(0, len(cases), batch)]
+    out = []
     for r in (pmap or map)(solve, groups):
         out += r
     return out
+
+
+# ------------------------------------------------------------------------------------------ recorded root causes
+def _i32(v):
+    return ((v + 2 ** 31) % 2 ** 32) - 2 ** 31
+
+
+def _ops(c):
+    return c.info.get('ops') or []
+
+
+def roots(T):
+    """(key of an open finding, predicate(case, compile-time text, run-time text)): the predicate names the builtin, the operand
+    region AND the observation, so that any other difference of the same builtin is still reported under its own key"""
+    byl = {b.label: b for b in T}
+
+    def trunc32(c, ct):
+        o = _ops(c)
+        if len(o) != 1 or not isinstance(o[0], int) or -2 ** 31 <= o[0] < 2 ** 31:
+            return False
+        try:
+            return ct == CB.out_of(byl[c.label].ret, byl[c.label].py(_i32(o[0])))
+        except Exception:
+            return False
+    return [
+        ('c03:builtin:array_get:undefined-in-the-evaluator',
+         lambda c, ct, nt: c.label.startswith('array_get(') and ct == b'void\n'),
+        ('c03:builtin:array_push:evaluator-refuses-a-non-dynamic-array',
+         lambda c, ct, nt: c.label.startswith('array_push(') and ct == b'void\n' and len(_ops(c)) == 2 and len(_ops(c)[0]) > 0),
+        ('c03:builtin:unknown-to-the-checker:evaluator-void-native-unknown',
+         lambda c, ct, nt: c.label in ('bool_to_string', 'is_space') and ct == b'void\n' and nt == b'<unknown>\n'),
+        ('c03:builtin:char_to_lower-upper:evaluator-truncates-the-operand-to-32-bits',
+         lambda c, ct, nt: c.label in ('char_to_lower', 'char_to_upper') and trunc32(c, ct)),
+        ('c03:builtin:character-classes:evaluator-truncates-the-operand-to-32-bits',
+         lambda c, ct, nt: c.label in ('is_digit', 'is_alpha', 'is_alnum', 'is_upper', 'is_lower', 'is_whitespace', 'digit_value') and trunc32(c, ct)),
+        ('c03:builtin:str_substring:start-at-or-past-the-end-is-void-in-the-evaluator',
+         lambda c, ct, nt: c.label == 'str_substring' and ct == b'void\n' and nt == b'\n' and len(_ops(c)) == 3 and
+         (_ops(c)[1] > len(_ops(c)[0]) or (_ops(c)[1] == len(_ops(c)[0]) and _ops(c)[2] > 0))),
+        ('c03:builtin:str_substring:start-plus-length-overflows-in-the-evaluator',
+         lambda c, ct, nt: c.label == 'str_substring' and ct == b'\n' and len(_ops(c)) == 3 and 0 < _ops(c)[1] < len(_ops(c)[0]) and
+         _ops(c)[1] + _ops(c)[2] > CB.I64MAX and nt == _ops(c)[0][_ops(c)[1]:] + b'\n'),
+    ]
+
+
+def has_float(c, T_by_label):
+    b = T_by_label.get(c.label)
+    return bool(b) and ('float' in b.params or b.ret == 'float')
+
+
+def run_stream(ck, b, known_keys):
+    """the whole stream; records failures on ck; returns measured counts"""
+    T, P, cases = all_cases(ck.thorough)
+    byl = {x.label: x for x in T}
+    cnt = collections.Counter()
+    keep = []
+    for c in cases:
+        if needs_escape(c):
+            cnt['excluded: string operand needs an escape (open finding c03:string-escapes)'] += 1
+        elif has_float(c, byl):
+            cnt['excluded: float operand or result (text form of floats; native float literals: c01:builtin:float-literal:*)'] += 1
+        else:
+            keep.append(c)
+    R = roots(T)
+    with langlib.Work('c03b') as wd:
+        r = Runner(b, wd)
+        res = sweep(r, keep, 400, lambda f, l: langlib.pmap(f, l, 16))
+        cnt['programs compiled'] = r.programs
+    per = collections.Counter()
+    for c, ct, nt, info in res:
+        key = c.key.replace('c01:builtin:', 'c03:builtin:', 1)
+        if ct is False or nt is False:
+            cnt['unobservable: whole builtin has no %s side' % ('compile-time' if ct is False else 'run-time')] += 1
+            continue
+        if ct is None or nt is None:
+            side = 'compile-time' if ct is None else 'run-time'
+            cnt['unobservable: no %s side' % side] += 1
+            ck.extra['builtins_unobservable'][c.label + ': ' + side] += 1
+            if ct is None and nt is not None:
+                # the evaluator did not get through the shadow block (nanoc ended / refused) although the binary runs the call
+                ck.fail(key + ':compile-time-side-missing', 'shadow block calling %s: nanoc rc=%s, the binary prints %r' % (c.info.get('expr'), info.get('rc'), nt[:80]),
+                        dict(builtin_case=c.key, source=program([c]), stderr=info.get('stderr', '')[-600:]))
+            continue
+        ck.count(key, True)
+        per[c.label] += 1
+        if ct == nt:
+            cnt['agree'] += 1
+            continue
+        cnt['differ'] += 1
+        rk = next((k for k, pred in R if pred(c, ct, nt)), None)
+        ck.extra['builtin_differences'][rk or c.label] += 1
+        ck.fail(rk or key, 'builtin in a shadow test: %s prints %r at compile time, %r in the compiled program' % (c.info.get('expr'), ct[:120], nt[:120]),
+                dict(builtin_case=c.key, expr=c.info.get('expr'), mode=c.mode, source=program([c]), compile_time=ct.decode('latin1')[:400],
+                     run_time=nt.decode('latin1')[:400], reference=(c.exp or b'').decode('latin1')[:400]))
+    ck.extra['builtin_stream'] = dict(cnt)
+    ck.extra['builtin_cases_per_builtin'] = dict(per)
+    ck.extra['builtin_extra_ints'] = [str(v) for v in EXTRA_INTS]
+    return cnt
+
+
+def replay_case(ck, b, d):
+    with langlib.Work('c03br') as wd:
+        sp = os.path.join(wd, 's.nano'); open(sp, 'w').write(d['source'])
+        outp = os.path.join(wd, 's.out')
+        rc, o, e = langlib.run_cmd([b.bin('nanoc'), sp, '-o', outp, '--verbose'], 300, dict(os.environ, TMPDIR=wd), cwd=wd)
+        ct = compile_time_segments(o, 1)[0] if b'Running shadow tests' in o else None
+        nt = None
+        if rc == 0 and os.path.exists(outp):
+            rc2, o2, e2 = langlib.run_cmd([outp], 60, cwd=wd)
+            seg = CB.segments(o2, 1)
+            nt = seg[0] if seg else None
+    print(d['source']); print('compile time:', ct); print('run time    :', nt)
+    bad = ct is None or nt is None or ct != nt
+    print('REPRODUCED' if bad else 'not reproduced')
+    return 1 if bad else 0
